@@ -115,6 +115,7 @@ class Body:
         self._pred = None
         self._dom = None
         self._defs = None
+        self._retp = None
         self.file = raw["span"]["file"]
         self.line = raw["span"]["line"]
 
@@ -312,11 +313,55 @@ class Body:
                     return b, sw[0], sw[1].get(0), sw[1].get(1)
         return None
 
+    def ret_places(self):
+        """locals that hold this function's return value: _0 and, after inlining, the return place of every helper whose
+        result is moved straight into one of them (`return helper(..)` / tail call)"""
+        if getattr(self, "_retp", None) is None:
+            self._ret_pass = set()
+            r = {0}
+            grew = True
+            while grew:
+                grew = False
+                for bl in self.blocks:
+                    for st in bl["stmts"]:
+                        if st.get("inlined_return") and st["k"] == "assign" and st["place"]["l"] in r and not st["place"]["p"] and st["rv"]["k"] == "use":
+                            x = st["rv"]["x"].get("move") or st["rv"]["x"].get("copy")
+                            if x and not x["p"] and x["l"] not in r:
+                                r.add(x["l"])
+                                grew = True
+                        # an inlined `async fn`: poll result D = Poll::Ready(move L); `Y = move (D as Ready).0` and then
+                        # `r = move Y` (or Y already a return place) make L a return place
+                        if st.get("inlined_return") and st["k"] == "assign" and st["rv"]["k"] == "agg" and st["rv"].get("vname") == "Ready" and not st["place"]["p"]:
+                            dl = st["place"]["l"]
+                            x = st["rv"]["ops"][0].get("move") or st["rv"]["ops"][0].get("copy")
+                            if x and not x["p"] and x["l"] not in r:
+                                ys = set()
+                                for bl2 in self.blocks:
+                                    for s2 in bl2["stmts"]:
+                                        if s2["k"] == "assign" and not s2["place"]["p"] and s2["rv"]["k"] == "use":
+                                            y = s2["rv"]["x"].get("move") or s2["rv"]["x"].get("copy")
+                                            if y and y["l"] == dl and y["p"]:
+                                                ys.add(s2["place"]["l"])
+                                hit = bool(ys & r)
+                                for b2i, bl2 in enumerate(self.blocks):
+                                    for s2i, s2 in enumerate(bl2["stmts"]):
+                                        if s2["k"] == "assign" and s2["place"]["l"] in r and not s2["place"]["p"] and s2["rv"]["k"] == "use":
+                                            y = s2["rv"]["x"].get("move") or s2["rv"]["x"].get("copy")
+                                            if y and not y["p"] and y["l"] in ys:
+                                                hit = True
+                                                self._ret_pass.add((b2i, s2i))
+                                if hit:
+                                    r.add(x["l"])
+                                    grew = True
+            self._retp = r
+        return self._retp
+
     def error_returned(self, call_bb):
         """the failure value of the call ending call_bb (possibly after await / `?` / a helper's return) is what some
         `?` of this function returns: a from_residual writing the function's own return place derives from that call"""
+        rp = self.ret_places()
         for bb, t in self.calls_to(r"FromResidual::from_residual$"):
-            if t["dest"]["l"] != 0 or t["dest"]["p"]:
+            if t["dest"]["l"] not in rp or t["dest"]["p"]:
                 continue
             o = self.origin(t["args"][0])
             if any(c[4] == call_bb for c in self.may_calls(o)):
@@ -324,20 +369,24 @@ class Body:
         # `match x { Err(e) => return Err(e) }` form
         for i, bl in enumerate(self.blocks):
             for st in bl["stmts"]:
-                if st["k"] == "assign" and st["place"]["l"] == 0 and not st["place"]["p"] and st["rv"]["k"] == "agg" and st["rv"].get("vname") == "Err":
+                if st["k"] == "assign" and st["place"]["l"] in rp and not st["place"]["p"] and st["rv"]["k"] == "agg" and st["rv"].get("vname") == "Err":
                     if any(c[4] == call_bb for o in st["rv"]["ops"] for c in self.may_calls(self.origin(o))):
                         return True
         return False
 
     def ret_kinds(self, start):
         """how the function can return when control is at `start`: subset of {'Ok','Err','residual','call:<def>','other','diverge'}"""
+        rp = self.ret_places()
+
         def classify(kind, bb, idx, node):
-            if kind == "stmt" and node["k"] == "assign" and node["place"]["l"] == 0 and not node["place"]["p"]:
+            if kind == "stmt" and node["k"] == "assign" and node["place"]["l"] in rp and not node["place"]["p"]:
                 rv = node["rv"]
+                if node.get("inlined_return") or (bb, idx) in self._ret_pass:
+                    return None           # the helper's own assignment to its return place was the event
                 if rv["k"] == "agg" and rv["agg"] == "adt" and rv["adt"] in ("core::result::Result", "core::option::Option", "core::task::poll::Poll"):
                     return ("ret", rv["vname"])
                 return ("ret", "other")
-            if kind == "term" and node["k"] == "call" and node["dest"]["l"] == 0 and not node["dest"]["p"]:
+            if kind == "term" and node["k"] == "call" and node["dest"]["l"] in rp and not node["dest"]["p"]:
                 d, rd, ga, fn = callee(node)
                 if d and d.endswith("from_residual"):
                     return ("ret", "residual")
@@ -1078,6 +1127,8 @@ def inline_calls(body, want, depth=2):
             cb = mir.bodies.get(name)
             if cb is None or cb.get("coroutine") or t.get("target") is None:
                 continue
+            if len(cb["blocks"]) == 1 and any(st["k"] == "assign" and st["rv"]["k"] == "agg" and st["rv"].get("agg") == "coroutine" for st in cb["blocks"][0]["stmts"]):
+                continue          # the shell of an `async fn`: see inline_async
             loff, boff, poff = len(locals_), len(blocks), len(promoted)
             locals_.extend(cb["locals"])
             promoted.extend(cb.get("promoted") or [])
@@ -1104,6 +1155,119 @@ def inline_calls(body, want, depth=2):
     if not changed:
         return body
     return Body(body.name + "#inlined", raw, mir)
+
+
+def _subst_upvars(node, self_local, upmap):
+    """rewrite places `(_self.k).rest` to `(_u_k).rest` in an (already local-shifted) MIR JSON fragment"""
+    if isinstance(node, dict):
+        if "l" in node and "p" in node and isinstance(node.get("p"), list):
+            p = node["p"]
+            if node["l"] == self_local and p and isinstance(p[0], dict) and "f" in p[0] and p[0]["f"] in upmap:
+                return {"l": upmap[p[0]["f"]], "p": [_subst_upvars(x, self_local, upmap) for x in p[1:]]}
+            return {"l": node["l"], "p": [_subst_upvars(x, self_local, upmap) for x in p]}
+        return {k: _subst_upvars(v, self_local, upmap) for k, v in node.items()}
+    if isinstance(node, list):
+        return [_subst_upvars(x, self_local, upmap) for x in node]
+    return node
+
+
+def inline_async(body, want, depth=2):
+    """Like inline_calls, for `async fn` helpers inside the pre-transform MIR of a coroutine: `helper(args).await` is a call
+    that builds the helper's coroutine, into_future, and a poll loop.  The Future::poll call on that coroutine is replaced by
+    the helper's own (pre-transform) coroutine body: its captured arguments become copies of the call's arguments, its
+    `return` becomes `poll result = Poll::Ready(value)` followed by the Ready arm of the caller's match, and its own awaits
+    (Yield terminators) stay suspension points of the combined body."""
+    mir = body.mir
+    raw = body.raw
+    if not raw.get("coroutine"):
+        return body
+    changed = False
+    for _ in range(depth):
+        cur = Body(body.name + "#tmp", raw, mir)
+        blocks = [dict(b, stmts=list(b["stmts"])) for b in raw["blocks"]]
+        locals_ = list(raw["locals"])
+        promoted = list(raw.get("promoted") or [])
+        did = False
+        for bi in range(len(raw["blocks"])):
+            t = raw["blocks"][bi]["term"]
+            if not t or t["k"] != "call":
+                continue
+            d, rd, ga, fn = callee(t)
+            name = rd or d
+            if not name or not want(name):
+                continue
+            shell = mir.bodies.get(name)
+            if shell is None or shell.get("coroutine") or len(shell["blocks"]) != 1:
+                continue
+            made = [st for st in shell["blocks"][0]["stmts"] if st["k"] == "assign" and st["rv"]["k"] == "agg" and st["rv"].get("agg") == "coroutine"]
+            if len(made) != 1:
+                continue
+            cdef = made[0]["rv"].get("def")
+            cb = mir.bodies.get("%s#promoted" % cdef)
+            if cb is None or not cb.get("coroutine"):
+                continue
+            # upvar k of the coroutine <- operand k of the aggregate, which is the async fn's own parameter (local k+1)
+            ops = made[0]["rv"]["ops"]
+            upsrc = {}
+            for k, opnd in enumerate(ops):
+                pl = opnd.get("move") or opnd.get("copy")
+                if pl is None or pl["p"] or not (1 <= pl["l"] <= shell["argc"]):
+                    upsrc = None
+                    break
+                upsrc[k] = pl["l"] - 1          # index into the call's argument list
+            if upsrc is None:
+                continue
+            # the poll of that coroutine
+            polls = []
+            for pb, pt in cur.calls_to(r"future::Future::poll$"):
+                o = cur.origin(pt["args"][0])
+                if any(c[4] == bi for c in origin_calls(o)):
+                    polls.append((pb, pt))
+            if len(polls) != 1 or polls[0][1].get("target") is None:
+                continue
+            pb, pt = polls[0]
+            loff, boff, poff = len(locals_), len(blocks), len(promoted)
+            locals_.extend(cb["locals"])
+            promoted.extend(cb.get("promoted") or [])
+            upmap = {}
+            for k in sorted(upsrc):
+                upmap[k] = len(locals_)
+                locals_.append({"ty": t.get("argtys", [None] * 8)[upsrc[k]] if upsrc[k] < len(t.get("argtys", [])) else "?", "name": None})
+                blocks[bi]["stmts"].append({"k": "assign", "place": {"l": upmap[k], "p": []}, "rv": {"k": "use", "x": t["args"][upsrc[k]]}, "line": t.get("line"), "exp": False,
+                                            "inlined_arg": name})
+            # where the caller continues with a Ready value
+            cont = pt["target"]
+            tb = raw["blocks"][cont]
+            if tb["term"] and tb["term"]["k"] == "switch":
+                dis = [st for st in tb["stmts"] if st["k"] == "assign" and st["rv"]["k"] == "discr" and st["rv"]["place"] == pt["dest"]]
+                ready = [b2 for v, b2 in tb["term"]["targets"] if str(v) == "0"]
+                if dis and ready:
+                    cont = ready[0]
+            for cblk in cb["blocks"]:
+                stmts = _subst_upvars(_rewrite(cblk["stmts"], loff, boff, poff, cdef), loff + 1, upmap)
+                term = _subst_upvars(_shift_blocks(_rewrite(cblk["term"], loff, boff, poff, cdef), boff), loff + 1, upmap)
+                if term and term["k"] == "return":
+                    stmts = stmts + [{"k": "assign", "place": pt["dest"],
+                                      "rv": {"k": "agg", "agg": "adt", "adt": "core::task::poll::Poll", "variant": 0, "vname": "Ready", "fields": ["0"], "gargs": [], "union_field": None,
+                                             "ops": [{"move": {"l": loff, "p": []}}]}, "line": pt.get("line"), "exp": False, "inlined_return": name}]
+                    term = {"k": "goto", "target": cont, "line": pt.get("line")}
+                elif term and term["k"] == "coroutine_drop":
+                    term = {"k": "goto", "target": boff + len(cb["blocks"]), "line": pt.get("line")}      # joins a synthetic drop exit
+                blocks.append({"stmts": stmts, "term": term, "cleanup": cblk.get("cleanup", False)})
+            blocks.append({"stmts": [], "term": {"k": "coroutine_drop", "line": pt.get("line")}, "cleanup": False})
+            # the resume argument (task context) of the helper is the caller's
+            blocks[pb] = dict(blocks[pb], stmts=list(blocks[pb]["stmts"]) + [
+                {"k": "assign", "place": {"l": loff + 2, "p": []}, "rv": {"k": "use", "x": {"copy": {"l": 2, "p": []}}}, "line": pt.get("line"), "exp": False, "inlined_arg": name}],
+                term={"k": "goto", "target": boff, "line": pt.get("line"), "inlined_call": name})
+            did = True
+            raw = dict(raw, blocks=blocks, locals=locals_, promoted=promoted)
+            break            # block indices changed: rescan
+        if not did:
+            break
+        changed = True
+    if not changed:
+        return body
+    return Body(body.name.replace("#tmp", "") + "#inlined", raw, mir)
 
 
 # ---------------------------------------------------------------------------- variant-sensitive reachability
